@@ -1079,6 +1079,8 @@ def update_detector_states(
     """
     state = arrays.detector_states
     to_update = objects.backward_detectors if inverse else objects.forward_detectors
+    # a detector that is never on (e.g. an always-off switch) has no record rows to write into
+    to_update = [d for d in to_update if any(v.shape[0] > 0 for v in state[d.name].values())]
     if not to_update:
         return arrays
 
